@@ -16,13 +16,16 @@ import (
 	"flag"
 	"fmt"
 	"hash/crc32"
+	"io"
 	"log"
 	"math/rand"
 	"os"
+	"os/exec"
 	"strings"
 	"sync"
 	"time"
 
+	"github.com/rs/zerolog"
 	"github.com/rs/zerolog/diode"
 	"github.com/rs/zerolog/zzverif/vatomic"
 	"github.com/rs/zerolog/zzverif/vsched"
@@ -42,6 +45,9 @@ type Script struct {
 	Foreign bool     `json:"foreign"` // generated from a model with other constants: skipped steps are expected
 	Seed    int64    `json:"seed"`
 	Again   bool     `json:"again"`   // after Close returned: two late Writes and a second Close
+	Inner   bool     `json:"inner"`   // the wrapped writer's Close closes ANOTHER diode writer (a destination that is itself buffered): two writers alive at once
+	Fatal   string   `json:"fatal"`   // "one" | "two": real goroutines in a child process that ends with Logger.Fatal (the process exit is Close's return)
+	Late    bool     `json:"late"`    // producers go on writing after Close was called (free walks): outside C11's accounting, inside C10
 	NoAlert bool     `json:"noalert"` // the writer is created with a nil alerter: drops are not reported to anybody (no accounting), everything else holds
 	Werr    int      `json:"werr"`    // > 0: the wrapped writer's Werr-th Write returns an error (once): delivery goes on all the same
 }
@@ -120,6 +126,7 @@ func identify(p []byte) int {
 }
 
 type recWriter struct {
+	inner    io.Closer
 	failAt   int
 	block    bool
 	closed   bool
@@ -142,7 +149,20 @@ func (r *recWriter) Write(p []byte) (int, error) {
 	return len(p), nil
 }
 
-func (r *recWriter) Close() error { r.closed = true; return nil }
+func (r *recWriter) Close() error {
+	r.closed = true
+	if r.inner != nil {
+		// the destination is itself buffered by a diode writer of its own: closing the outer one closes it too. Writers are
+		// independent objects - Close of one returns whatever state another one is in
+		return r.inner.Close()
+	}
+	return nil
+}
+
+type nopCloser struct{}
+
+func (nopCloser) Write(p []byte) (int, error) { return len(p), nil }
+func (nopCloser) Close() error                { return nil }
 
 type collW struct{ n int }
 
@@ -155,11 +175,15 @@ func (c *collW) Write(p []byte) (int, error) {
 }
 
 func canon(name string) string {
+	second := ""
+	if strings.HasSuffix(name, "#2") { // goroutines of the second writer of a run (Inner scripts)
+		second = "2"
+	}
 	switch {
 	case strings.HasPrefix(name, "diode.NewWriter"):
-		return "C"
+		return "C" + second
 	case strings.HasPrefix(name, "diodes.NewWaiter"):
-		return "X"
+		return "X" + second
 	}
 	return name
 }
@@ -355,7 +379,142 @@ func (r *run) maybeQuiesce() {
 	}
 }
 
+// ---- the Fatal path: Logger.Fatal closes the writer and exits. A child process (real goroutines, scheduler off) logs ten
+// events and a Fatal one through a Logger over a diode writer whose destination is slow; every Write, delivery, alert and the
+// first Close is appended to a file as it happens (one write(2) per record), the parent turns the file into a recording and
+// the exit of the process into CloseRet: everything written before must have reached the destination by then.
+// "two": while the first Fatal is draining, a second goroutine calls Fatal on a sibling logger whose level filters the event
+// (it writes nothing, but Fatal exits all the same): the process must still not end before the ring is empty.
+
+type fatalW struct {
+	dw      diode.Writer
+	line    func(ev)
+	once    sync.Once
+	entered chan struct{}
+}
+
+func fatalID(p []byte) int {
+	var x struct {
+		M int `json:"m"`
+	}
+	if json.Unmarshal(bytes.TrimSpace(p), &x) != nil {
+		return -1
+	}
+	return x.M
+}
+
+func (w *fatalW) Write(p []byte) (int, error) {
+	m := fatalID(p)
+	w.line(ev{"a": "WStart", "m": m})
+	n, err := w.dw.Write(p)
+	w.line(ev{"a": "WRet", "m": m, "n": n, "err": err != nil})
+	return n, err
+}
+
+func (w *fatalW) Close() error {
+	w.once.Do(func() { w.line(ev{"a": "CloseStart"}); close(w.entered) })
+	return w.dw.Close()
+}
+
+type fatalSink struct {
+	line func(ev)
+}
+
+func (s *fatalSink) Write(p []byte) (int, error) {
+	s.line(ev{"a": "DStart", "m": fatalID(p), "len": len(p)})
+	time.Sleep(4 * time.Millisecond)
+	s.line(ev{"a": "DEnd", "stable": true})
+	return len(p), nil
+}
+
+func (s *fatalSink) Close() error { s.line(ev{"a": "SinkClosed"}); return nil }
+
+func fatalChild(kind, mode, path string) {
+	vsched.Free = true
+	f, err := os.OpenFile(path, os.O_CREATE|os.O_WRONLY|os.O_APPEND, 0o644)
+	if err != nil {
+		os.Exit(97)
+	}
+	var mu sync.Mutex
+	line := func(e ev) {
+		b, _ := json.Marshal(e)
+		mu.Lock()
+		f.Write(append(b, '\n'))
+		mu.Unlock()
+	}
+	interval := time.Duration(0)
+	if mode == "poller" {
+		interval = time.Millisecond
+	}
+	dw := diode.NewWriter(&fatalSink{line}, 64, interval, func(n int) { line(ev{"a": "Alert", "n": n, "async": false}) })
+	w := &fatalW{dw: dw, line: line, entered: make(chan struct{})}
+	lg := zerolog.New(w)
+	for k := 1; k <= 10; k++ {
+		lg.Info().Int("m", k).Msg("")
+	}
+	switch kind {
+	case "one":
+		lg.Fatal().Int("m", 99).Msg("")
+	case "two":
+		go func() { lg.Fatal().Int("m", 99).Msg("") }()
+		<-w.entered
+		time.Sleep(2 * time.Millisecond)
+		sib := lg.Level(zerolog.Disabled)
+		sib.Fatal().Msg("filtered")
+	}
+	time.Sleep(10 * time.Second)
+	os.Exit(96) // not reached if Fatal exits
+}
+
+func playFatal(sc Script) {
+	obs(ev{"a": "Reset", "id": sc.ID, "N": 64, "P": 1, "W": 11, "mode": sc.Mode, "block": false, "noalert": false})
+	emit(implW, ev{"a": "Reset", "id": sc.ID, "N": 64, "P": 1, "W": 11, "mode": sc.Mode})
+	tmp, _ := os.CreateTemp("", "verif-diode-fatal-*")
+	tmp.Close()
+	defer os.Remove(tmp.Name())
+	cmd := exec.Command(os.Args[0])
+	cmd.Env = append(os.Environ(), "VERIF_DIODE_FATAL="+sc.Fatal, "VERIF_DIODE_FATAL_MODE="+sc.Mode, "VERIF_DIODE_FATAL_FILE="+tmp.Name())
+	err := cmd.Run()
+	code := 0
+	if ee, ok := err.(*exec.ExitError); ok {
+		code = ee.ExitCode()
+	} else if err != nil {
+		code = -1
+	}
+	data, _ := os.ReadFile(tmp.Name())
+	wclosed := false
+	for _, ln := range bytes.Split(data, []byte("\n")) {
+		if len(bytes.TrimSpace(ln)) == 0 {
+			continue
+		}
+		var e ev
+		if json.Unmarshal(ln, &e) != nil {
+			continue // a record cut off by the exit
+		}
+		if e["a"] == "SinkClosed" {
+			wclosed = true
+			continue
+		}
+		for _, k := range []string{"m", "n", "len"} { // numbers as integers, as in the scheduled recordings
+			if x, ok := e[k].(float64); ok {
+				e[k] = int(x)
+			}
+		}
+		obs(e)
+	}
+	if code == 1 {
+		obs(ev{"a": "CloseRet", "wclosed": wclosed, "exit": code})
+	} else {
+		obs(ev{"a": "Stuck", "g": map[string]string{}, "cancelled": true, "steps": 0, "exit": code})
+	}
+	emit(implW, ev{"a": "End", "steps": 0, "drift": 0})
+}
+
 func play(sc Script) (hung bool) {
+	if sc.Fatal != "" {
+		playFatal(sc)
+		return false
+	}
 	vsched.Reset()
 	vsched.KeepPanics = true
 	vatomic.ResetPtrOps()
@@ -381,12 +540,15 @@ func play(sc Script) (hung bool) {
 		alerter = nil
 	}
 	r.w = diode.NewWriter(r.rw, sc.N, interval, alerter)
+	if sc.Inner {
+		r.rw.inner = diode.NewWriter(nopCloser{}, 2, interval, nil)
+	}
 	for p := 1; p <= sc.P; p++ {
 		p := p
 		name := fmt.Sprintf("P%d", p)
 		vsched.Go(name, func() {
 			for k := 1; k <= sc.W; k++ {
-				vsched.Gate("p.write", func() bool { return !r.closing }, nil)
+				vsched.Gate("p.write", func() bool { return !r.closing || sc.Late }, nil)
 				m := p*100 + k
 				buf := payload(m)
 				r.inWrite[name] = true
@@ -425,11 +587,12 @@ func play(sc Script) (hung bool) {
 
 	if sc.Free {
 		rng := rand.New(rand.NewSource(sc.Seed))
-		closeAt := rng.Intn(4) // 0: only when all producers are done
+		closeAt := rng.Intn(4)                   // 0: only when all producers are done
+		lateAfter := 1 + rng.Intn(sc.P*sc.W/2+1) // Late: Close is called at the first idle moment after that many Writes returned
 		for i := 0; i < 3000 && !r.hung; i++ {
 			var en []string
 			for _, n := range r.order {
-				if n == "CL" && !r.closing && !(r.allProducersDone() || (closeAt == 1 && rng.Intn(40) == 0)) {
+				if n == "CL" && !r.closing && !(r.allProducersDone() || (closeAt == 1 && rng.Intn(40) == 0) || (sc.Late && r.returned >= lateAfter)) {
 					continue
 				}
 				if sc.Block && n == "CL" {
@@ -493,6 +656,10 @@ func play(sc Script) (hung bool) {
 }
 
 func main() {
+	if k := os.Getenv("VERIF_DIODE_FATAL"); k != "" {
+		fatalChild(k, os.Getenv("VERIF_DIODE_FATAL_MODE"), os.Getenv("VERIF_DIODE_FATAL_FILE"))
+		return
+	}
 	in := flag.String("scripts", "", "scripts ndjson")
 	obsPath := flag.String("obs", "obs.ndjson", "observable recording")
 	implPath := flag.String("impl", "impl.ndjson", "gate-step recording")
